@@ -12,7 +12,8 @@ RULE = ('cases = one update stream: count-min sketches of depth 1..8 and width i
         'every row sums to the total) checked after every update for short streams and every k-th for long ones; bounded counters with '
         'bounds 0, 1, 2, distinct-1, distinct, distinct+1, several instances interleaved. One pass runs under NUMBA_BOUNDSCHECK=1. '
         'distinct = (shape or bound, key type, stream hash); non-trivial = some estimate exceeds the truth (a collision row exists) or '
-        'the counter reached its bound.')
+        'the counter reached its bound. Counter-in-pipeline shards: the per-column counters kept by compute_cardinalities (bounds 1..20 via '
+        'max_unique_hist_constraint), checked against the exact recount after every mini-batch.')
 REQUIRED = {'cms-never-underestimates': 500, 'cms-at-most-total': 500, 'cms-row-sums': 100, 'counter-never-overcounts': 200, 'counter-exact-below-bound': 200, 'counter-at-most-bound-keys': 200}
 ASSUMPTIONS = ['weights are non-negative integers and totals stay below 2^31 (default int32 matrix)', 'the bounded counter is fed item by item through add()']
 WARM = None
